@@ -333,6 +333,24 @@ def run_lints(prog, rep, reach, tag, only_rules=None):
                    f"{kind}-level mutable {name}: " + ("mutated only at import time or never" if not sites else
                                                        f"mutated at run time in {sites[0][0].key} line {sites[0][1].lineno}"),
                    f"pdb2pqr/{rel}:{st.lineno}")
+    # ---- R3: a class object lives as long as the process; storing on it at run time (Class.attr = ..., cls.attr, type(self).attr,
+    # self.__class__.attr) is state every later call and run sees - also when the attribute's initial value is immutable
+    for key in sorted(reach):
+        f = prog.funcs[key]
+        if import_time_only(prog, f):
+            continue
+        local_names = {a.arg for a in f.node.args.args + f.node.args.kwonlyargs} | {
+            n.id for n in walk_no_defs(f.node) if isinstance(n, ast.Name) and isinstance(n.ctx, ast.Store)}
+        for n in walk_no_defs(f.node):
+            if not (isinstance(n, ast.Attribute) and isinstance(n.ctx, (ast.Store, ast.Del))):
+                continue
+            base = U(n.value)
+            is_class = (isinstance(n.value, ast.Name) and n.value.id in prog.classes_by_name and n.value.id not in local_names) or \
+                base in ("cls", "type(self)", "self.__class__")
+            if is_class:
+                owner = f.cls.name if base in ("cls", "type(self)", "self.__class__") and f.cls is not None else base
+                r3.bad(f"shared|{f.module.rel}:{owner}.{n.attr}", f"{f.qual} stores on the class object ({U(n)} at line {n.lineno}): the value outlives the call and "
+                       "is seen by every later call and run", f"pdb2pqr/{f.module.rel}:{n.lineno} ({f.qual})")
     # ---- R2/R3: objects created by a call at import time live as long as the process
     SAFE_CTORS = ("logging.getLogger", "getLogger", "float", "int", "str", "bool", "tuple", "frozenset", "range", "re.compile", "Path", "PurePath",
                   "pathlib.Path", "namedtuple", "collections.namedtuple", "TypeVar", "typing.TypeVar", "len", "max", "min", "sum", "sorted", "round", "abs",
